@@ -1,6 +1,7 @@
 import TinsModel.RadioTap.LemmasDecode
 import TinsModel.RadioTap.LemmasLive
 import TinsModel.RadioTap.LemmasSafeObs
+import TinsModel.RadioTap.LemmasReport
 /- Property C11 — RadioTap fields can be set in any order and read back.
    Theorems only (helper lemmas live in TinsModel/RadioTap/Lemmas*.lean).  The model (`mkC`, `advanceFieldC`, …,
    `writeOption`, `doFindOption`, `present`, `trailerSize`, `applyWrites`, `defaultCtor`, `parseCtor`, `serializeHdr`)
@@ -127,6 +128,21 @@ theorem parser_walk_total (buf : Bytes) :
     obtain ⟨items, c', he, _⟩ := walkLoopC_inv hi [] (walkFuel genMeta) (Nat.le_refl _)
     exact Or.inl ⟨items, c', he⟩
   · rw [h0]; exact Or.inr rfl
+
+/-- **parser_reports_sound** — the parser reports only what is there: every field the loop
+    `while (has_fields()) { …; advance_field(); }` visits, on any byte string, is a table field whose bit is set in the
+    present word of the namespace it is reported for, starts at an offset inside the buffer that is aligned counted
+    from the radiotap header, and `current_option()` there is exactly the field's `size` bytes at that offset or
+    `malformed_packet` because they end behind the buffer. -/
+theorem parser_reports_sound (buf : Bytes) (items : List WalkItem) (c : PC) (h : walkC genMeta buf = .ok (items, c)) :
+    ∀ it ∈ items, ItemSound genMeta buf it := by
+  unfold walkC at h
+  cases hm : mkC genMeta buf with
+  | ok c0 =>
+    rw [hm] at h
+    exact walkLoopC_sound gen_meta_wf _ c0 [] ⟨mkC_inv hm, mkC_pointed gen_meta_wf hm⟩ (by simp) items c h
+  | throw e => rw [hm] at h; cases h
+  | fault f => rw [hm] at h; cases h
 
 /-- `RadioTap::present()` (`namespace_flags()` / `advance_namespace()`, no bounds checks of their own) on a payload of
     at least one present word: stays inside the buffer; equal to the total `present` -/
@@ -641,5 +657,19 @@ example : decodeLayout stdMeta (layL stdMeta witnessF (fieldList stdMeta witness
 example : mkC genMeta [0, 0, 0, 0x80, 1, 0] = .throw .malformedPacket := by rfl
 
 example : ∃ c, mkC genMeta [1, 0, 0, 0, 1, 2, 3, 4, 5] = .ok c ∧ hasFields genMeta c.p = true := ⟨_, rfl, by decide⟩
+
+/-- the walk over the two-word test header of libtins' own suite reports eight fields, two of them from the second word -/
+example : (match walkC genMeta [0x2b, 0x40, 0x08, 0xa0, 0x20, 0x08, 0, 0, 0, 0, 0, 0, 0xde, 0x18, 0x7a, 0x5c, 0xe3, 1, 0, 0, 0x10, 0,
+    0x6c, 0x09, 0x80, 0x04, 0xba, 0, 0, 0, 0x27, 0, 1, 0xba, 0] with
+    | .ok (items, _) => items.map (fun it => (it.ns, it.bit, it.ptr))
+    | _ => []) = [(0, 0, 12), (0, 1, 20), (0, 3, 22), (0, 5, 26), (0, 14, 28), (0, 19, 30), (1, 5, 33), (1, 11, 34)] := by
+  decide
+
+/-- objects are reachable, and accepted payloads exist for the any-payload serialization theorem (a live frame here) -/
+example : Reachable { payload := canonical stdMeta defaultMap } := Reachable.default default_is_canonical
+
+example : ∃ p, Parser.mk' genMeta (layL stdMeta witnessF (fieldList stdMeta witnessM)) = .ok p ∧
+    4 ≤ (layL stdMeta witnessF (fieldList stdMeta witnessM)).length :=
+  wellaligned_accepted witnessF witness_ok.1 witnessM witness_sized
 
 end Tins.Props.C11
